@@ -217,6 +217,21 @@ def run_case(case):
             wk.destroy()
         if len(out['violations']) > 3:
             break
+        # the catchable kill (SIGINT): KeyboardInterrupt when call k returns
+        wk, rk, a0, a1 = sc.execute({'interrupt_after': k})
+        try:
+            why = (rk.crash or {}).get('why')
+            if rk.timeout or why not in ('interrupt-after', 'interrupt-skipped'):
+                out['verdict'] = 'inconclusive'
+                out['why'] = 'interrupt point %d not reached (exit %s)' % (k, rk.exit)
+                return out
+            if why == 'interrupt-after':
+                obs['interrupt_states'] = obs.get('interrupt_states', 0) + 1
+                judge_state(wk, rk, a0, a1)
+        finally:
+            wk.destroy()
+        if len(out['violations']) > 3:
+            break
     # ---- real SIGKILL at random instants (thorough tier)
     import random as _random
     krng = _random.Random(case.get('seed', 1))
